@@ -153,13 +153,28 @@ type Cond struct {
 func NewCond(l Locker) *Cond {
 	c := &Cond{L: l}
 	c.id = csched.NewObj(func() uint64 { return uint64(len(c.waiters)) })
+	c.alias()
 	return c
+}
+
+// alias puts the condition variable and its mutex into one dependence group: Wait enqueues the waiter and
+// releases the mutex inside the transition that ran up to it.
+func (c *Cond) alias() {
+	switch m := c.L.(type) {
+	case *Mutex:
+		m.init()
+		csched.Alias(c.id, m.id)
+	case *RWMutex:
+		m.init()
+		csched.Alias(c.id, m.id)
+	}
 }
 
 // Wait mirrors sync.Cond.Wait: enqueue and unlock atomically, block until
 // signalled, re-lock.
 func (c *Cond) Wait() {
 	w := &waiter{}
+	c.alias()
 	c.waiters = append(c.waiters, w)
 	if m, ok := c.L.(*Mutex); ok {
 		m.unlockNoPoint()
